@@ -64,7 +64,8 @@ def boson_frame(w, h, fid, level, zero_at=None):
     return bytes(raw)
 
 
-def build_conn(rng, settings, w, h, fps, model, first_id, nitems, with_clear=True, with_bad=False, brand="flir"):
+def build_conn(rng, settings, w, h, fps, model, first_id, nitems, with_clear=True, with_bad=False, brand="flir",
+               clear_runs=False, sustain=0.0):
     """Returns (conn dict for the driver, model events for SystemTrace, next id)."""
     boson = model == "boson"
     fsize = 2 * w * h if boson else 640 + 2 * w * h
@@ -77,18 +78,38 @@ def build_conn(rng, settings, w, h, fps, model, first_id, nitems, with_clear=Tru
     pace_at = []
     hot, fid, since = False, first_id, 0      # since: accepted frames since connection start / clear
     i = 0
+    # clear_runs: markers also directly after the header and back to back (leptond restarts a camera whose first
+    # frame after a restart fails again), at forced positions so that every connection has some
+    forced = set()
+    if clear_runs:
+        forced = {0} if rng.random() < 0.3 else set()
+        forced |= {rng.randrange(1, max(2, nitems - 2)) for _ in range(2)}
+    # sustain: stretches of uninterrupted motion longer than max-secs (+ pre-trigger), so that recordings are split at
+    # the maximum length while the trigger run is still going on
+    sustain_left = 0
+    maxf, nring = settings["max"] * fps, settings["preview"] * fps + trig
+    if sustain and rng.random() < sustain:
+        sustain_at = rng.randrange(2, max(3, nitems // 2))
+    else:
+        sustain_at = -1
     while i < nitems:
         r = rng.random()
-        if with_clear and r < 0.03 and since > 0:
-            payload += b"clear"
-            ev.append(dict(ev="clear"))
+        if i == sustain_at:
+            sustain_left = maxf + nring + rng.randint(2, maxf + 5)
+        if with_clear and ((r < 0.03 and since > 0) or i in forced):
+            for _ in range(rng.choice([2, 2, 3]) if i in forced else 1):
+                payload += b"clear"
+                ev.append(dict(ev="clear"))
+                pace_at.append(len(payload))
+            pace_at.pop()
             since = 0
         elif with_bad and r < 0.06:
             z = rng.randrange(1, w * h)
             payload += boson_frame(w, h, 60000, 200, z) if boson else lepton_frame(w, h, 60000, 200, 60000 + fid * 100, z)
             ev.append(dict(ev="bad"))
         else:
-            burst = rng.random() < 0.35
+            burst = rng.random() < 0.35 or sustain_left > 0
+            sustain_left = max(0, sustain_left - 1)
             toggle = burst and since > 0
             if toggle:
                 hot = not hot
@@ -173,7 +194,7 @@ def c11_events(ctx, binp):
         model = rng.choice(["lepton3", "lepton3.5", "boson"])
         conns, mev, fid = [], [], 1
         for c in range(rng.choice([1, 1, 2])):
-            conn, ev, fid = build_conn(rng, settings, w, h, fps, model, fid, rng.randint(20, 90), with_bad=False)
+            conn, ev, fid = build_conn(rng, settings, w, h, fps, model, fid, rng.randint(20, 90), with_bad=False, sustain=0.6)
             conns.append(conn)
             mev += ev
         scen = dict(config=toml(settings), prefiles=[], conns=conns)
@@ -233,7 +254,7 @@ def judge_c11(ctx, runs, binp=None, second_pass=False):
                 workers=1, files=[(tp, "trace.ndjson")], timeout=1800, heap="4g")
     if r.get("distinct", 0) != len(tr) + 1:
         raise vlib.Infra("SystemTrace did not consume the e2e trace (%s/%d):\n%s" % (r.get("distinct"), len(tr), vlib.tail_err(r["out"])))
-    flagged = sorted({[x for (ln, x) in index if ln == int(m.group(1))][0]
+    flagged = sorted({[x for (ln, x) in index if ln >= int(m.group(1))][0]
                       for m in re.finditer(r'<<\s*"VIOL",\s*(\d+),\s*\{([^}]*)\}', r["out"])})
     if flagged and binp and not second_pass:
         # timing robustness: a real deviation is deterministic, so the flagged scenarios are repeated once, slower
@@ -247,7 +268,7 @@ def judge_c11(ctx, runs, binp=None, second_pass=False):
         return judge_c11(ctx, runs, binp, second_pass=True)
     for m in re.finditer(r'<<\s*"VIOL",\s*(\d+),\s*\{([^}]*)\}', r["out"]):
         line = int(m.group(1))
-        ri = [x for (ln, x) in index if ln == line][0]
+        ri = [x for (ln, x) in index if ln >= line][0]
         run = runs[ri]
         for tg in re.findall(r'"([^"]+)"', m.group(2)):
             if tg in ("SYS:camera-restart-requests", "SYS:bad-frame-events"):
@@ -311,12 +332,13 @@ def c05_wiring(ctx, binp):
         bucket_frames = int(settings["bucket"][:-1]) * fps
         w, h = 4, 3
         fsize = 640 + 2 * w * h
-        payload = bytearray()
+        payload, pace = bytearray(), []
         n = 6 * bucket_frames + 20
         for i in range(1, n + 1):
             payload += lepton_frame(w, h, i, 300 if i % 2 else 200, 60000 + i * 100)     # continuous motion
+            pace.append(len(payload))
         conn = dict(header=dict(ResX=w, ResY=h, FPS=fps, FrameSize=fsize, Model="lepton3", Brand="flir", CameraSerial=1, Firmware="1.0.0"),
-                    payload=base64.b64encode(bytes(payload)).decode(), cuts=[], settle_ms=50, pace_bytes=fsize, pace_ms=3)
+                    payload=base64.b64encode(bytes(payload)).decode(), cuts=[], settle_ms=50, pace_at=pace, pace_ms=3)
         evs = run_e2e(ctx, binp, dict(config=toml(settings), prefiles=[], conns=[conn]), "c05_%d" % k)
         last = [e for e in evs if e["ev"] == "e2e-conn-done"][-1]
         end = [e for e in evs if e["ev"] == "e2e-end"][-1]
@@ -325,6 +347,77 @@ def c05_wiring(ctx, binp):
                      (c["member"] == "Queue" and c["dest"] == "org.cacophony.Events"))
         out.append(dict(fps=fps, settings=settings, bucket_frames=bucket_frames, frames_sent=n, frames_stored=stored,
                         throttle_events=events, files=[f["ids"] for f in last["files"] if f["kind"] == "final"]))
+    return out
+
+
+def thr_probe_runs(ctx, binp):
+    """C05/C06 through the unmodified runMain: throttle on with a refill period that cannot earn a frame within the run
+    (24h), small buckets, min/preview/max/trigger-frames in unusual but valid combinations (min+preview > max,
+    trigger-frames >= fps), several motion bursts; every stream is played against a sweep of bucket sizes so that the
+    budget left at some start request falls on either side of one minimum-length recording.  SystemTrace.tla composes
+    Processor.tla with the no-refill throttle and predicts the files; the budget and full-clip clauses are evaluated
+    directly on the files."""
+    import random
+    rng = ctx.rng
+    runs = []
+    for k in range(2 if ctx.tier == "quick" else 16):
+        fps = rng.choice([1, 2, 3]) if k % 4 else 9
+        preview = rng.choice([1, 2]) if k % 2 == 0 else rng.choice([0, 1])
+        mn = rng.choice([1, 1, 2]) if fps < 9 else 1
+        mx = mn if k % 2 == 0 else rng.choice([mn + 1, mn + 2])           # even: min+preview > max
+        trig = rng.choice([0, 1, 2]) if k % 2 == 0 else rng.choice([fps, fps + 1, 2 * fps])   # odd: trigger-frames >= fps
+        if preview * fps + trig < 1:
+            trig = 1
+        minlen = (mn + preview) * fps
+        model = rng.choice(["lepton3", "boson"])
+        sseed = rng.randrange(1 << 30)
+        for bucket_s in [mn + preview + d for d in ((1, 2, 3, 4) if ctx.tier == "quick" else (0, 1, 2, 3, 4, 5))]:
+            settings = dict(min=mn, max=mx, preview=preview, const=False, throttle=True, bucket="%ds" % bucket_s, refill="24h",
+                            motion=dict(FIXED_MOTION, **{"trigger-frames": trig}), device="dev", deviceid=7)
+            w, h = 4, 3
+            conn, ev, fid = build_conn(random.Random(sseed), settings, w, h, fps, model, 1, 90 + 12 * fps, with_clear=(k % 3 == 0), with_bad=False)
+            ev[0]["ThrCap"], ev[0]["ThrMin"] = bucket_s * fps, minlen
+            scen = dict(config=toml(settings), prefiles=[], conns=[conn])
+            try:
+                evs = run_e2e(ctx, binp, scen, "thr_%d_%d" % (k, bucket_s))
+            except DaemonCrash as dc:
+                runs.append(dict(kind="crash", settings=settings, fps=fps, model=model, msg=dc.msg, result=dict(files=[], constant=[])))
+                continue
+            last = [e for e in evs if e["ev"] == "e2e-conn-done"][-1]
+            runs.append(dict(kind="predict", settings=settings, fps=fps, model=model, model_events=ev, result=last, scen=scen,
+                             expected_motion={}))
+    return runs
+
+
+def thr_refill_runs(ctx, binp):
+    """C05 with the real clock: continuous motion for several real seconds with a short refill period.  One-sided:
+    frames stored <= bucket + (min+preview)*fps/min-refill * elapsed * 1.01 + 2, elapsed measured by the driver from
+    dialling the frame socket to the end of the stream (an upper bound of the throttle's lifetime)."""
+    rng = ctx.rng
+    out = []
+    for k in range(2 if ctx.tier == "quick" else 8):
+        fps = rng.choice([3, 9])
+        mn, preview = 1, rng.choice([0, 1])
+        trig = [fps, 1, 2 * fps, 2][k % 4]
+        bucket_s, refill_s = rng.choice([2, 3]), rng.choice([1, 2])
+        settings = dict(min=mn, max=rng.choice([mn, mn + 3]), preview=preview, const=False, throttle=True, bucket="%ds" % bucket_s,
+                        refill="%ds" % refill_s, motion=dict(FIXED_MOTION, **{"trigger-frames": trig}))
+        w, h = 4, 3
+        fsize = 640 + 2 * w * h
+        n = 260
+        payload, pace = bytearray(), []
+        for i in range(1, n + 1):
+            payload += lepton_frame(w, h, i, 300 if i % 2 else 200, 60000 + i * 100)     # continuous motion
+            pace.append(len(payload))
+        conn = dict(header=dict(ResX=w, ResY=h, FPS=fps, FrameSize=fsize, Model="lepton3", Brand="flir", CameraSerial=1, Firmware="1.0.0"),
+                    payload=base64.b64encode(bytes(payload)).decode(), cuts=[], settle_ms=50, pace_at=pace, pace_ms=15)
+        evs = run_e2e(ctx, binp, dict(config=toml(settings), prefiles=[], conns=[conn]), "thrrefill_%d" % k)
+        last = [e for e in evs if e["ev"] == "e2e-conn-done"][-1]
+        elapsed = last["stream_ms"] / 1000.0      # dial .. all frames processed and settled: the throttle's whole life
+        stored = sum(len(f["ids"]) for f in last["files"] if f["kind"] == "final")
+        rate = (mn + preview) * fps / refill_s
+        out.append(dict(fps=fps, settings=settings, bucket_frames=bucket_s * fps, frames_sent=n, frames_stored=stored,
+                        elapsed_s=round(elapsed, 2), bound=round(bucket_s * fps + rate * elapsed * 1.01 + 2, 1)))
     return out
 
 
@@ -369,6 +462,34 @@ def c17_runs(ctx, binp):
         last = [e for e in evs if e["ev"] == "e2e-conn-done"][-1]
         runs.append(dict(kind="predict", settings=settings, fps=fps, model="lepton3", model_events=ev, result=last, scen=scen,
                          ntest=len(req_at), expected_motion={}))
+    return runs
+
+
+def c17_reconnect_runs(ctx, binp):
+    """C17 across camera reconnects within one daemon run (and a daemon restart on the same output directory is the
+    prefiles case of C10): the continuous recorder is set up anew by every handleConn, its directory already exists
+    from the second connection on; every frame of every connection must land in exactly one continuous file."""
+    rng = ctx.rng
+    runs = []
+    for k in range(2 if ctx.tier == "quick" else 10):
+        settings, fps = gen_settings(rng)
+        settings["const"] = True
+        w, h = rng.choice([(4, 3), (6, 5)])
+        model = rng.choice(["lepton3", "boson"])
+        conns, mev, fid = [], [], 1
+        for c in range(rng.choice([2, 3])):
+            conn, ev, fid = build_conn(rng, settings, w, h, fps, model, fid, rng.randint(25, 60), with_clear=(k % 2 == 0), with_bad=False)
+            conns.append(conn)
+            mev += ev
+        scen = dict(config=toml(settings), prefiles=[], conns=conns)
+        try:
+            evs = run_e2e(ctx, binp, scen, "c17r_%d" % k)
+        except DaemonCrash as dc:
+            runs.append(dict(kind="crash", settings=settings, fps=fps, model=model, msg=dc.msg, result=dict(files=[], constant=[])))
+            continue
+        last = [e for e in evs if e["ev"] == "e2e-conn-done"][-1]
+        runs.append(dict(kind="predict", settings=settings, fps=fps, model=model, model_events=mev, result=last, scen=scen,
+                         expected_motion={}))
     return runs
 
 
